@@ -1,7 +1,11 @@
 (* C19 — Document collections store and find documents faithfully.
    Only the property theorems, each closed by `exact`.  Model: Doc/Model.v (tied to
    embedded/document on every run by Tie/C19.v); spec = the write log (HistProofs.v) and the
-   evaluation of a query on the stored JSON payloads (spec_search in Model.v). *)
+   evaluation of a query on the stored JSON payloads (spec_search in Model.v).
+   The model carries three facts about the code that the harness probes on the real engine on every
+   run (record `flags`: fl_nz -0.0/+0.0 have different index keys, fl_strict INTEGER fields reject
+   non-integral numbers, fl_uf the unique check reads only the first key); the universal theorems
+   hold for every value of the flags, the refutations exhibit the values the code has today. *)
 From V Require Import Doc.Model Doc.Facts Doc.RangeProofs Doc.SearchProofs Doc.HistProofs
                       Doc.UniqueProofs Doc.Witness.
 
